@@ -118,14 +118,20 @@ def dm14_guard(srv, sa, data):
 
 @unit("j1939.Dm14Server:DM14Server.parse_dm14", props=["C19", "C17", "C18"])
 def _(self: "DM14Server", priority: "int", pgn: "int", sa: "int", timestamp: "real", data: "octets"):
-    requires(octets(data), len(data) == 8, 0 <= sa <= 255, self.length == 8, 0 <= self.error < 2**24)
+    requires(octets(data), len(data) == 8, 0 <= sa <= 255, self.length == 8, 0 <= self.error < 2**24,
+             implies(not is_none(self.address), len(self.address) == 4))
     opaque("DM14Server._send_dm15", "ControllerApplication.unsubscribe")
+    modifies(trace, self.state, self.sa, self.address, self.length, self.direct, self.pgn, self.status, self.command, self.pointer_type,
+             self.object_count, self.access_level, self.data, self.key, self._pgn, self._busy)
     let("n0", len(trace))
     let("dm14", pgn == PGN_DM14)
     let("guard", old(dm14_guard(self, sa, data)))
     let("st0", old(self.state))
     raises("ValueError", when=dm14 and not guard and st0 != ResponseState.IDLE and st0 != ResponseState.WAIT_FOR_KEY
            and st0 != ResponseState.WAIT_OPERATION_COMPLETE, label="C19.dm14.invalid_state")
+    # the pointer kept is always the 4-octet pointer field
+    ensures("C17.dm14.pointer_len", implies(not is_none(self.address), len(self.address) == 4), self.length == 8,
+            0 <= self.error and self.error < 2 ** 24)
     ensures("C19.dm14.foreign_pgn", implies(not dm14, len(trace) == n0 and unchanged(self.state, self.sa, self._busy)))
     # ---- C19: a request from another source address, or for another pointer, while a transaction is running (or while the
     # application reports busy) is answered with DM15 'operation failed' (error 2 = busy unless the application set one)
@@ -153,7 +159,9 @@ def _(self: "DM14Server", priority: "int", pgn: "int", sa: "int", timestamp: "re
     # key frame: the key the client returned is kept for the check
     ensures("C18.dm14.key", implies(dm14 and not guard and st0 == ResponseState.WAIT_FOR_KEY,
             self.state == ResponseState.SEND_PROCEED and self.key == le2(data[6], data[7]) and len(trace) == n0
-            and unchanged(self.sa)))
+            and unchanged(self.sa)
+            and not is_none(self.address) and len(self.address) == 4 and forall(lambda i: self.address[i] == data[2 + i], 0, 4)
+            and self.object_count == data[0]))
     # closing DM14 (operation completed): the server is idle again and accepts any requester
     ensures("C17.dm14.close", implies(dm14 and not guard and st0 == ResponseState.WAIT_OPERATION_COMPLETE,
             self.state == ResponseState.IDLE and is_none(self.sa) and len(trace) == n0 + 1
@@ -190,3 +198,146 @@ def _(self: "DM14Server"):
     returns("int")
     # a seed is 16 bits and never one of the two reserved values (0xFFFF = no key required, 0 = key exchange complete)
     ensures("C18.seed.range", 0 < result, result < 0xFFFF)
+
+
+@unit("j1939.Dm14Server:DM14Server._send_dm15", props=["C18", "C17", "C19"])
+def _(self: "DM14Server", length: "int", direct: "int", status: "int", state: "enum('ResponseState')", object_count: "int", sa: "int",
+      pgn: "int", error: "opt(int)", edcp: "opt(int)"):
+    requires(length == 8, 0 <= direct <= 15, 0 <= status <= 7, 0 <= object_count <= 255, 0 <= sa <= 255, pgn == PGN_DM15,
+             implies(state == ResponseState.SEND_ERROR, not is_none(error) and not is_none(edcp) and 0 <= error < 2**24 and 0 <= edcp <= 255))
+    cases(length, [8])
+    opaque("ControllerApplication.send_pgn")
+    # the configured seed generator yields a 16-bit seed (the built-in one: C18.seed.range)
+    callout_assume("the seed generator returns a 16-bit value", 0 <= ret and ret <= 0xFFFF, on=self._seed_generator)
+    let("n0", len(trace))
+    raises("ValueError", when=state != ResponseState.WAIT_FOR_KEY and state != ResponseState.SEND_PROCEED
+           and state != ResponseState.SEND_OPERATION_COMPLETE and state != ResponseState.SEND_ERROR, label="C18.dm15.invalid_state")
+    # always exactly one DM15 (PF 0xD8), priority 6, to the address given
+    ensures("C19.dm15.addressed", is_ca_send(trace[-1], self._ca, 0xD8, sa, 6), len(trace[-1].l5) == 8)
+    # ---- error: status 'operation failed', 24-bit error indicator (little endian), EDCP extension, no seed
+    ensures("C18.dm15.error", implies(state == ResponseState.SEND_ERROR,
+            len(trace) == n0 + 1
+            and trace[-1].l5 == [0, dm14_octet1(direct, DM15_OPERATION_FAILED), le_octet(error, 0), le_octet(error, 1), le_octet(error, 2), edcp, 0xFF, 0xFF]
+            and le3(trace[-1].l5[2], trace[-1].l5[3], trace[-1].l5[4]) == error))
+    # ---- seed: number allowed 0, the seed just generated in the last two octets (and remembered for the key check)
+    ensures("C18.dm15.seed", implies(state == ResponseState.WAIT_FOR_KEY,
+            len(trace) == n0 + 2 and trace[n0].fn == old(self._seed_generator)
+            and not is_none(self.seed) and self.seed == trace[n0].ret
+            and trace[-1].l5 == [0, dm14_octet1(direct, status), 0xFF, 0xFF, 0xFF, 0xFF, le_octet(self.seed, 0), le_octet(self.seed, 1)]
+            and le2(trace[-1].l5[6], trace[-1].l5[7]) == self.seed))
+    # ---- proceed: number of objects allowed, seed field 0xFFFF (no key required any more)
+    ensures("C17.dm15.proceed", implies(state == ResponseState.SEND_PROCEED,
+            len(trace) == n0 + 1
+            and trace[-1].l5 == [object_count, dm14_octet1(direct, status), 0xFF, 0xFF, 0xFF, 0xFF, 0xFF, 0xFF]))
+    # ---- operation complete: status field 4; the server now waits for the client's closing DM14
+    ensures("C17.dm15.complete", implies(state == ResponseState.SEND_OPERATION_COMPLETE,
+            len(trace) == n0 + 1
+            and trace[-1].l5 == [0, dm14_octet1(direct, DM15_OPERATION_COMPLETE), 0xFF, 0xFF, 0xFF, 0xFF, 0xFF, 0xFF]
+            and self.state == ResponseState.WAIT_OPERATION_COMPLETE))
+
+
+@unit("j1939.Dm14Server:DM14Server._parse_dm16", props=["C17"])
+def _(self: "DM14Server", priority: "int", pgn: "int", sa: "int", timestamp: "real", data: "octets"):
+    requires(octets(data))
+    opaque("ControllerApplication.subscribe", "ControllerApplication.unsubscribe", "DM14Server._send_dm15")
+    let("n0", len(trace))
+    let("mine", pgn == PGN_DM16 and not is_none(self.sa) and sa == self.sa)
+    let("n", mn(data[0], len(data) - 1))
+    let("q0", old(len(self.data_queue)))
+    raises("IndexError", when=mine and len(data) == 0, label="C17.dm16.server.empty")
+    ensures("C17.dm16.server.foreign", implies(not mine, len(trace) == n0 and len(self.data_queue) == q0 and unchanged(self.state)))
+    # a write: the application gets exactly the octets behind the count octet (all of them above 7 octets), once
+    ensures("C17.dm16.server.take", implies(mine,
+            len(self.data_queue) == q0 + 1 and len(self.data_queue[-1]) == ite(n < 0, 0, n)
+            and forall(lambda j: self.data_queue[-1][j] == data[1 + j], 0, n)
+            and self.state == ResponseState.SEND_OPERATION_COMPLETE
+            and len(trace) == n0 + 3
+            and trace[n0].fn == fn("ControllerApplication.unsubscribe") and trace[n0].f1 == method(self, "_parse_dm16")
+            and trace[n0 + 1].fn == fn("ControllerApplication.subscribe") and trace[n0 + 1].f1 == method(self, "parse_dm14")
+            and trace[n0 + 2].fn == fn("DM14Server._send_dm15") and trace[n0 + 2].o0 == self
+            and trace[n0 + 2].i4 == ResponseState.SEND_OPERATION_COMPLETE.value and trace[n0 + 2].i6 == sa))
+
+
+@unit("j1939.Dm14Server:DM14Server.reset_query", props=["C18", "C19"])
+def _(self: "DM14Server"):
+    opaque("ControllerApplication.unsubscribe")
+    # back to the initial state: idle, no requester, no pointer, not busy, no pending seed / key / data / error
+    ensures("C18.reset", self.state == ResponseState.IDLE, is_none(self.sa), is_none(self.seed), is_none(self.key), self._busy == False,
+            is_none(self.address), self.length == 8, self.proceed == False, len(self.data) == 0, self.error == 0, self.edcp == 7,
+            self.status == DM15_PROCEED, self.direct == 0)
+
+
+# ------------------------------------------------------------------ facade (MemoryAccess)
+
+@unit("j1939.memory_access:MemoryAccess.read", props=["C18", "C17"])
+def _(self: "MemoryAccess", dest_address: "int", direct: "int", address: "int", object_count: "int", object_byte_size: "int",
+      signed: "bool", return_raw_bytes: "bool", max_timeout: "real"):
+    opaque("Dm14Query.read")
+    opaque_raises("Dm14Query.read", "RuntimeError", "AssertionError", "IndexError")
+    returns("any")
+    let("n0", len(trace))
+    let("idle", old(self.state) == DMState.IDLE)
+    raises("RuntimeWarning", when=not idle, post=len(trace) == n0 and unchanged(self.state), label="C18.facade.read.busy")
+    # whatever the query raises (no response, error response, wrong key) travels to the caller - and the facade is idle again
+    raises(["RuntimeError", "AssertionError", "IndexError"], post=self.state == DMState.IDLE and len(trace) == n0 + 1,
+           label="C18.facade.read.recover", exact=False)
+    # the query is handed exactly the caller's arguments, once; afterwards the facade is idle again
+    ensures("C17.facade.read", len(trace) == n0 + 1, trace[-1].fn == fn("Dm14Query.read"), trace[-1].o0 == self.query,
+            trace[-1].i1 == dest_address, trace[-1].i2 == direct, trace[-1].i3 == address, trace[-1].i4 == object_count,
+            trace[-1].i5 == object_byte_size, trace[-1].b6 == signed, trace[-1].b7 == return_raw_bytes, trace[-1].r8 == max_timeout,
+            self.state == DMState.IDLE)
+
+
+@unit("j1939.memory_access:MemoryAccess.write", props=["C18", "C17"])
+def _(self: "MemoryAccess", dest_address: "int", direct: "int", address: "int", values: "list(int)", object_byte_size: "int",
+      max_timeout: "real"):
+    opaque("Dm14Query.write")
+    opaque_raises("Dm14Query.write", "RuntimeError", "AssertionError", "OverflowError", "IndexError")
+    let("n0", len(trace))
+    let("idle", old(self.state) == DMState.IDLE)
+    raises(["RuntimeError", "AssertionError", "OverflowError", "IndexError"], post=self.state == DMState.IDLE and len(trace) == n0 + 1,
+           label="C18.facade.write.recover", exact=False)
+    ensures("C17.facade.write", implies(idle, len(trace) == n0 + 1 and trace[-1].fn == fn("Dm14Query.write") and trace[-1].o0 == self.query
+            and trace[-1].i1 == dest_address and trace[-1].i2 == direct and trace[-1].i3 == address and same_list(trace[-1].l4, values)
+            and trace[-1].i5 == object_byte_size and trace[-1].r6 == max_timeout and self.state == DMState.IDLE))
+    ensures("C18.facade.write.busy", implies(not idle, len(trace) == n0 and unchanged(self.state)))
+
+
+def key_ok(ma):
+    # the key the client returned is what the configured algorithm derives from the seed that was sent to it
+    return (not is_none(ma.server._key_from_seed) and not is_none(ma.server.seed) and not is_none(ma.server.key)
+            and ma.server._key_from_seed(ma.server.seed) == ma.server.key)
+
+
+@unit("j1939.memory_access:MemoryAccess._listen_for_dm14", props=["C18", "C19"])
+def _(self: "MemoryAccess", priority: "int", pgn: "int", sa: "int", timestamp: "real", data: "octets"):
+    requires(octets(data), len(data) == 8, 0 <= sa <= 255, self.server.length == 8, 0 <= self.server.error < 2**24,
+             # set_seed_key_algorithm switches the key exchange on for facade and server together
+             self.seed_security == (not is_none(self.server._key_from_seed)),
+             implies(not is_none(self._proceed_function), not is_none(self._notify_query_received)),
+             self._proceed_function != self._notify_query_received,
+             # the pointer kept by the server is the 4-octet pointer field of an 8-octet DM14
+             implies(not is_none(self.server.address), len(self.server.address) == 4 and octets(self.server.address)),
+             # coupling of the two state machines: the facade waits for the key frame exactly while the server does
+             implies(self.state == DMState.REQUEST_STARTED,
+                     self.server.state == ResponseState.WAIT_FOR_KEY and not is_none(self.server.seed) and not is_none(self.server.address)))
+    bycontract("DM14Server.parse_dm14", "DM14Server.verify_key")
+    opaque("ControllerApplication.unsubscribe", "ControllerApplication.subscribe")
+    let("n0", len(trace))
+    let("st0", old(self.state))
+    # ---- C18: with a seed/key algorithm the serving application is consulted (proceed callback) and told about the request
+    # (notify callback) only while the key returned by the client matches the seed it was sent
+    callout_check("C18.key_before_app",
+                  implies(ev.fn == self._proceed_function or ev.fn == self._notify_query_received,
+                          implies(self.seed_security, key_ok(self))))
+    # other parameter groups are none of the facade's business
+    ensures("C19.facade.foreign_pgn", implies(pgn != PGN_DM14, len(trace) == n0 and unchanged(self.state)))
+    # ---- C19: while the facade itself runs a query as client, every incoming request is answered 'busy' and never reaches
+    # the application
+    ensures("C19.facade.busy_while_query", implies(pgn == PGN_DM14 and st0 == DMState.WAIT_QUERY,
+            unchanged(self.state) and self.server._busy == False
+            and forall(lambda j: trace[j].fn != self._proceed_function and trace[j].fn != self._notify_query_received, n0, len(trace))
+            and len(trace) == n0 + 1
+            and is_dm15_call(trace[-1], self.server, 8, bits(data[1], 4, 4), DM15_OPERATION_FAILED, ResponseState.SEND_ERROR, data[0], sa)))
+    # a request while the application still owes the answer to the previous one (WAIT_RESPONSE) is not looked at
+    ensures("C19.facade.wait_response", implies(pgn == PGN_DM14 and st0 == DMState.WAIT_RESPONSE, len(trace) == n0 and unchanged(self.state)))
